@@ -294,7 +294,7 @@ def get_cauchy_point(
 
     # only the variables that are still moving (d != 0): a variable fixed at the
     # same breakpoint value as t_cur (tie) must stay on its bound.
-    x_cp[d != 0] = (x + t_old * d)[d != 0]
+    x_cp[d != 0] = np.clip(x + t_old * d, lb, ub)[d != 0]
 
     c += delta_t_min * p
 
